@@ -297,6 +297,60 @@ def task_history(p, tier, seed):
     return part.d
 
 
+def task_cpp_symmetry(p, tier, seed):
+    """Generated C++ filter: prediction and update return symmetric covariances for symmetric input (S^-1 symmetric)."""
+    from .cpph import CppFilter
+    from engine.vsym import build as vb
+    from .oblig import prove_equal
+
+    part = Part()
+    part.program(p.id)
+    part.fn("templates/process_model.cpp", "templates/sensor_model.hpp")
+    tmo = tier_timeout_ms(tier)
+    n = len(p.s_state())
+    try:
+        cf = CppFilter(p, ekf=True, cse=True, k=None)
+        cf.__enter__()
+    except Exception as ex:
+        part.harness_error(f"cpp symmetry {p.id}: {ex}")
+        return part.d
+    try:
+        try:
+            cf.compile_symbolic()
+        except vb.BuildError as ex:
+            part.harness_error(f"cpp symmetry {p.id}: build failed {ex.log[-400:]}")
+            return part.d
+        for scn in ["predict"] + [f"update:{k_}" for k_ in p.s_sensors()]:
+            leaves, _ = cf.run(scn)
+            l = leaves[0]
+            ax = []
+            if scn != "predict":
+                _, Xs = l.inverse_cuts()[0]
+                m = len(Xs)
+                ax = [Xs[i][j] == Xs[j][i] for i in range(m) for j in range(i + 1, m)]
+            for i in range(n):
+                for j in range(i + 1, n):
+
+                    def replay(e, scn=scn, i=i, j=j):
+                        e = dict(e)
+                        for nm in pyh.input_env(p):
+                            e.setdefault(nm, 0.5)
+                        ss = p.s_state()
+                        for a_i, a in enumerate(ss):
+                            for b in ss[a_i:]:
+                                e.setdefault(f"P_{a}_{b}", 1.0 if a == b else 0.25)
+                        for k_ in p.sensors:
+                            for r in p.sensors[k_]:
+                                e.setdefault(f"z_{k_}_{r}", 0.25)
+                        outs, _, _ = cf.run_concrete(scn, {k_: v for k_, v in e.items() if isinstance(v, (int, float))})
+                        return {"impl": outs[f"P_{i}_{j}"], "spec": outs[f"P_{j}_{i}"]}
+
+                    prove_equal(part, PID, f"cpp/{p.id}/{scn}: covariance[{i},{j}] == covariance[{j},{i}]", l.out[f"P_{i}_{j}"], l.out[f"P_{j}_{i}"], ax, tmo, replay=replay, key=f"cpp/{p.id}/{scn}/symmetry", info={"kind": "cpp-symmetry", "program": p.id, "scenario": scn, "i": i, "j": j})
+    finally:
+        cf.__exit__(None, None, None)
+    return part.d
+
+
 def _dispatch(fn, args):
     return fn(*args)
 
@@ -312,8 +366,10 @@ def run(tier, seed):
         tasks.append((task_update_lemma, (n, m, tier, seed)))
     for n in (1, 2, 3, 4):
         tasks.append((task_gate, (n, tier, seed)))
-    for p in [CP.P2(), CP.P1()] + ([] if tier == "quick" else [CP.P3(), CP.P8()]):
+    for p in [CP.P2(), CP.P1(), CP.P13()] + ([] if tier == "quick" else [CP.P8()]):
         tasks.append((task_history, (p, tier, seed)))
+    for p in [CP.P13(), CP.P2()] + ([] if tier == "quick" else [CP.P3(), CP.P8()]):
+        tasks.append((task_cpp_symmetry, (p, tier, seed)))
     for d in pmap(_dispatch, tasks):
         rep.merge(d)
     rep.bounds = {"lemmas": "n <= 4, m <= 3, controls <= 2-3; P = L L^T with arbitrary real L, arbitrary Jacobians", "gate": f"diagonal matrices diag(d), 0 <= d_i <= {BOUND:g}, n <= 4, eigen-solver contract |error| <= {C_EIG}*n*2^-52*max|d|", "histories": "concrete replay target only: P2 (singular Jacobian) and P1, 200-600 steps, dt in {0.1, 0.05, 0.07}", "outside": "floating-point behaviour of LAPACK itself, rounding inside the matrix products; non-diagonal matrices in the gate clause"}
@@ -330,6 +386,28 @@ def replay(path):
     with open(path) as f:
         r = json.load(f)
     ps = {p.id: p for p in CP.all_fixed()}
+    if r.get("info", {}).get("kind") == "cpp-symmetry":
+        from .cpph import CppFilter
+
+        info = r["info"]
+        p = ps[info["program"]]
+        e = dict(r["inputs"])
+        for nm in pyh.input_env(p):
+            e.setdefault(nm, 0.5)
+        ss = p.s_state()
+        for a_i, a in enumerate(ss):
+            for b in ss[a_i:]:
+                e.setdefault(f"P_{a}_{b}", 1.0 if a == b else 0.25)
+        for k_ in p.sensors:
+            for rr in p.sensors[k_]:
+                e.setdefault(f"z_{k_}_{rr}", 0.25)
+        with CppFilter(p, ekf=True, cse=True, k=None) as cf:
+            outs, _, _ = cf.run_concrete(info["scenario"], {k_: v for k_, v in e.items() if isinstance(v, (int, float))})
+        a_, b_ = outs[f"P_{info['i']}_{info['j']}"], outs[f"P_{info['j']}_{info['i']}"]
+        print(a_, b_)
+        bad = abs(a_ - b_) > 1e-9 * max(1.0, abs(a_))
+        print("REPRODUCED" if bad else "not reproduced")
+        return 1 if bad else 0
     p = ps[r.get("history", {}).get("program", "P2-mzva")]
     rep = concrete_history(p, 0)
     print(rep)
